@@ -100,3 +100,8 @@ Definition classes_respected (cls : list (option nat)) (obs : list term) : bool 
   forallb (fun p => match fst p with
                     | Some k => term_eqb (snd p) (nth k obs (TL []))
                     | None => true end) (combine cls obs).
+
+(* ---- legacy CPU profiles: the signal-handler-frame heuristic of cpuProfile (legacy_profile.go) ----
+   an address is stripped when it is the second frame of at least n - n/32 of the n samples; the code
+   finds it by ranging over a map of counts and stops at the first address that qualifies *)
+Definition handler_frame_qualifies (n count : Z) : bool := n - n / 32 <=? count.
